@@ -27,6 +27,7 @@ func runC08(c *core.Ctx) core.Meta {
 	// ---------------- R08.1 one work-group counting formula ----------------
 	checkWGCountFormula(c, prov, "R08.1", []string{kernelsPkg, driverPkg, emuPkg, cuPkg}, 12)
 	checkBuilderReinitialised(c, "R08.6")
+	checkPerKernelFieldsStoredAlways(c, "R08.11")
 	// R08.7: the hardware-initialised registers are laid out alike in both modes and as the ABI says (c02.go, R02.2)
 	checkInitRegistersMirrored(c, "R08.7")
 
